@@ -3,7 +3,11 @@ line protocol for C05 (stateful): the text index model is driven with the same b
 queries as the real shard.
 
   new
-  batch <id>:<t>,<t>,…;<id>:;…        (terms are hex strings of the analysed tokens; `batch -` = empty)
+  batch <id>:<pc>:<t>,<t>,…;…          one entry per point change, in batch order.  <pc> says whether
+                                       the text property is present in the old / new point data
+                                       (`ap` insert, `pp` rewrite, `pa` removed or point deleted, `aa` untouched:
+                                       `dispatchText` decides what reaches the index); terms are hex strings of
+                                       the analysed tokens of the new text; `batch -` = empty
   search <all|any> limit=<n> filter=<-|id,id,…> q=<-|t,t,…> sc=<-|id:score:hybrid,…> pick=<-|id,id,…>
 
 `sc` carries, for every candidate the harness knows of, the float32 bit patterns of `_score` and
@@ -35,8 +39,12 @@ def parseBatch (s : String) : List (Doc String) :=
   if s == "-" || s.isEmpty then [] else
   (s.splitOn ";").filterMap fun e =>
     match e.splitOn ":" with
-    | [id, ts] => id.toNat?.map (fun i => (i, parseTerms ts))
-    | [id] => id.toNat?.map (fun i => (i, []))
+    | [id, pc, ts] =>
+      let prev : Option (List String) := if pc.startsWith "p" then some [] else none
+      let cur : Option (List String) := if pc.endsWith "p" then some (parseTerms ts) else none
+      match id.toNat?, dispatchText prev cur [] with
+      | some i, some toks => some (i, toks)
+      | _, _ => none
     | _ => none
 
 def parseScores (s : String) : List (Nat × DScore) :=
